@@ -77,3 +77,15 @@ CHECKS["C04"] = dict(
     text="Construction order matters for the cover tree (element 0 is the root), so sequences are enumerated; lattices make exact ties and duplicates the norm. Results must be exactly k entries with true index/distance/point and the k smallest distances (ties in the library's favour); radius results must be exactly the points within r; estimators must predict a weighted plurality / mean over SOME valid k-nearest set.",
     note="Continuous random clouds are reached only through structured families; the 'boundary-rounding' input class is reserved for misses within 32 eps of the pruning bound on non-dyadic distances.",
 )
+CHECKS["C05"] = dict(
+    engine="E1",
+    technique="exhaustive enumeration of training sets (p=1: all x in {0,1,2}^n x all labels/targets, n<=5 (6); p=2: n<=3 (4); all permutations of distinct values; adjacent-double and scaled variants; structured sets of 8..150 rows) x 3 criteria x max_depth x min_samples_leaf x min_samples_split; tree read back through serde and judged by a brute-force greedy-optimality / routing / leaf-content oracle; every vector over {0..3}^n n<=10 for the arg-sort",
+    text="Every clause of the statement is checked on every tree: routing reproduces predict, each leaf's output is a majority / mean of exactly the rows routed to it, leaf sizes and depth respect the limits, every regression split attains the brute-force best SSE reduction among admissible thresholds (ties by gain), growth is complete, classification optimality under msl=1 and distinct values, determinism and power-of-two scaling invariance.",
+    note="Quantifier sizes (150 rows, 6 features) are reached only through structured families; gain comparisons at relative 1e-9.",
+)
+CHECKS["C20"] = dict(
+    engine="E1+E2",
+    technique="one generic evaluator instantiated at DenseMatrix, ndarray::Array2 and nalgebra::DMatrix: exhaustive enumeration of every BaseMatrix/BaseVector/stats/high-order method over all shapes <=4x4 (8x8) x 4 value alphabets x {fresh, transposed-layout} operands x every compatible and incompatible operand-shape pair, compared with a row-major reference model and across backends; lock-step explicit-state BFS over operation chains (16 actions, depth 3 (5)); 22 estimators and 6 decompositions on lattice catalogues across the three backends with a CPU-time termination guard",
+    text="Backend equivalence is a differential property: the same finite set of operations and inputs is executed on all three backends and every result is compared with the reference model and with the other backends (panic/no-panic must agree). Transposed operands exercise non-standard memory layouts; all-negative / all-positive alphabets exercise the reductions the statement names.",
+    note="Lasso / elastic-net fits on the two bindings run in a child process with a 0.25 s CPU deadline (they hang on the unchanged tree: known findings). Tolerances as in the owning properties; logistic regression 1e-5.",
+)
